@@ -8,7 +8,8 @@ namespace ExprModel.Lex
 /-- for tokens whose value is their text: kind and stopping point are enough -/
 theorem spells_plain {cc : CharClass} {k : TokKind} {raw : List Char} {ok : List Char → Prop}
     (hne : raw ≠ []) (hk : k ≠ .string)
-    (hni : k = .operator → ¬ ∃ mid, raw = "not".toList ++ mid ++ "in".toList ∧ ∀ c ∈ mid, c = ' ')
+    (hni : k = .operator →
+      ¬ ∃ mid, raw = "not".toList ++ mid ++ "in".toList ∧ ∀ c ∈ mid, cc.wordBlank c = true)
     (h : ∀ (s : LState) (L : Loc) (rest : List Char), Fresh s L (raw ++ rest) → ok rest →
       ∃ t s1, root cc LexTables.std s (raw ++ rest) = .tok t s1 rest ∧ t.kind = k) :
     Spells cc k (String.ofList raw) raw ok := by
@@ -29,8 +30,8 @@ theorem emit_tok (k : TokKind) (s : LState) (rest : List Char) :
     ∃ t s1, emit k s rest = .tok t s1 rest ∧ t.kind = k := ⟨_, _, rfl, rfl⟩
 
 /-- a token text that is a single character is never of the `not … in` form -/
-theorem not_notin_short {raw : List Char} (h : raw.length < 5) :
-    ¬ ∃ mid, raw = "not".toList ++ mid ++ "in".toList ∧ ∀ c ∈ mid, c = ' ' := by
+theorem not_notin_short {cc : CharClass} {raw : List Char} (h : raw.length < 5) :
+    ¬ ∃ mid, raw = "not".toList ++ mid ++ "in".toList ∧ ∀ c ∈ mid, cc.wordBlank c = true := by
   rintro ⟨mid, rfl, _⟩
   simp at h
   omega
